@@ -33,6 +33,17 @@ Theorem C03_shutdown_before_fix_refuted :
   exists es s, srun false (sinit [1]) es = Some s /\ finished s = true /\ copies 1 s = 2.
 Proof. exact shutdown_before_fix_refuted. Qed.
 
+(* the worker rejects only what is still marked in flight - never a message whose report to the broker has started (the Redis
+   client's reject puts the name back whether the message is held or not; the model's reject does the same) *)
+Theorem C03_reject_only_when_held : forall msgs es s m s', NoDup msgs -> srun true (sinit msgs) es = Some s ->
+  (sstep true s (SRejectEffect m) = Some s' \/ sstep true s (SLoopGiveBack m) = Some s') -> In m (held s).
+Proof. exact reject_only_when_held. Qed.
+
+(* the runner before c813f53 cancelled-and-rejected a task inside or after its terminal call: acknowledged AND given back *)
+Theorem C03_reject_after_ack_before_fix_refuted :
+  exists es s, srun false (sinit [1]) es = Some s /\ cntz 1 (acked s) = 1 /\ cntz 1 (waiting s) = 1 /\ copies 1 s = 2.
+Proof. exact reject_after_ack_before_fix_refuted. Qed.
+
 (* slots: a task that ends in any way (return, exception, cancellation) gives its slot back and is counted once (C09) *)
 Theorem C03_task_end_releases : forall s m s', Inv s -> step_ev s (EvTaskDone m) = Some s' ->
   processed s' = processed s + 1 /\ len (Runner.tasks s') = len (Runner.tasks s) - 1 /\
@@ -45,3 +56,5 @@ Print Assumptions C03_owner_holds.
 Print Assumptions C03_invariant_step.
 Print Assumptions C03_shutdown_before_fix_refuted.
 Print Assumptions C03_task_end_releases.
+Print Assumptions C03_reject_only_when_held.
+Print Assumptions C03_reject_after_ack_before_fix_refuted.
